@@ -223,7 +223,7 @@ EndRun(m) ==   \* the top code frame executed Return or ran off the end
             IF f.stk = << >> THEN Panic(m, "pop-empty")
             ELSE LET m2 == PopFrame(m)
                      e  == Peek(f, 1)
-                 IN SetTop(m2, Push(Top(m2), e.v, e.p))
+                 IN SetTop(m2, Push(Top(m2), e.v, f.aux[2]))     \* at the place of the instantiation (like op_fcall)
 
 (* ---- hooks ------------------------------------------------------------------- *)
 HookFrame(hook, tk, items, acc, fn, p, lp) ==
